@@ -375,6 +375,21 @@ def powv(a, b):
         if k % 2 == 0 and k > 0:
             r = meet(r, Itv(0.0, INF, False, False)) if not r.empty else r
         return replace(r, nan=n, isint=a.isint)
+    if a.ge0() and b.is_point() and b.lo > 0 and not math.isinf(b.lo):
+        # x -> x ** c is increasing on [0, inf) for c > 0: the image of the end points, widened by one ulp where it is not exact
+        def ep(x, up):
+            if x == 0.0:
+                return 0.0
+            if math.isinf(x):
+                return INF
+            try:
+                v = x ** b.lo
+            except OverflowError:
+                return INF
+            return math.nextafter(v, INF if up else 0.0)
+        lo, hi = ep(a.lo, False), ep(a.hi, True)
+        exact_lo = a.lo == 0.0
+        return Itv(lo, hi, a.lo_open if exact_lo else False, a.hi_open if math.isinf(hi) else False, n)
     if a.gt0():
         return Itv(0.0, INF, True, True, n)
     if a.ge0():
